@@ -140,10 +140,60 @@ func oracleC09(c *oracleCtx) {
 
 var gapRe = regexp.MustCompile(`^(?:[ \t\r\n]|//[^\n\x00]*)*$`)
 
+var gapBlockRe = regexp.MustCompile(`^(?:[ \t\r\n]|//[^\n\x00]*|/\*(?:[^*\x00]|\*[^/\x00])*(?:\*/|\*?$))*$`)
+
+// tilingPlugin: 0 the plain lexer; 1 a plugin that builds some tokens through the exported NewToken (the token stream
+// must be that of the plain lexer); 2 a plugin that consumes block comments itself (they count as gap text)
+var tilingPlugin int
+
+func checkTilingPlugins(c *oracleCtx, src string, extra int) {
+	for _, p := range []int{1, 2} {
+		tilingPlugin = p
+		checkTiling(c, src, extra)
+	}
+	tilingPlugin = 0
+}
+
+// checkPluginTokens: a lexer plugin that builds the token for @ # ^ ~ ? with the exported NewToken, exactly as the
+// lexer itself does, changes nothing: positions, after-newline flag and leading comments included
+func checkPluginTokens(c *oracleCtx, src string, input map[string]any) {
+	guard(c, "panic", input, func() {
+		lb := lexer.NewBuilder()
+		lb.UseTokenInterceptor(newTokenPlugin)
+		a, b := lexer.NewBuilder().Build(src), lb.Build(src)
+		for i := 0; i <= len(src)+2; i++ {
+			x, y := a.NextToken(), b.NextToken()
+			if fmt.Sprintf("%#v", x) != fmt.Sprintf("%#v", y) {
+				c.violation("plugin-token", fmt.Sprintf("token %d: a plugin that builds the token with NewToken as the lexer does gets %#v, the lexer alone gives %#v", i, y, x), input)
+				return
+			}
+			if x.Type == token.EOF {
+				return
+			}
+		}
+	})
+}
+
 func checkTiling(c *oracleCtx, src string, extra int) {
 	input := map[string]any{"src": hexOf(src), "text": src}
+	plugin := tilingPlugin
+	gapRe := gapRe
+	lb := lexer.NewBuilder()
+	switch plugin {
+	case 1:
+		input["plugin"] = 1
+		lb.UseTokenInterceptor(newTokenPlugin)
+	case 2:
+		input["plugin"] = 2
+		lb.UseTokenInterceptor(blockCommentPlugin)
+		gapRe = gapBlockRe
+	}
+	if plugin == 1 {
+		checkPluginTokens(c, src, input)
+		return
+	}
 	guard(c, "panic", input, func() {
-		l := lexer.NewBuilder().Build(src)
+		l := lb.Build(src)
 		var toks []token.Token
 		limit := len(src) + 2
 		for i := 0; ; i++ {
@@ -191,7 +241,7 @@ func checkTiling(c *oracleCtx, src string, extra int) {
 				c.violation("gap", fmt.Sprintf("bytes %q between tokens %d and %d are neither whitespace nor comment", gap, i-1, i), input)
 				return
 			}
-			if strings.Contains(gap, "\n") != t.AfterNewline {
+			if strings.Contains(gap, "\n") != t.AfterNewline && !(plugin == 2 && strings.Contains(gap, "/*")) {
 				c.violation("after-newline", fmt.Sprintf("token %d %v: AfterNewline=%v but gap is %q", i, t, t.AfterNewline, gap), input)
 				return
 			}
@@ -283,13 +333,21 @@ func oracleC10(c *oracleCtx) {
 			c.count(in)
 		} else if m := recordedInput(in); m != nil {
 			if s, ok := m["src"].(string); ok {
+				tilingPlugin = recInt(m, "plugin")
 				checkTiling(c, unhex(s), 3)
+				tilingPlugin = 0
 				c.count(s)
 			}
 		}
 	}
 	for _, f := range lexFragments {
 		checkTiling(c, f, 2)
+		checkTilingPlugins(c, f, 2)
+		c.count(f)
+	}
+	for _, f := range []string{"a @ b", "// c\n@ a\n\n# b // t\n~", "x ? y ^ z", "a /* c */ b", "/* x */let y = 1 /* z\nw */  + 2 // t\n/* q */\n3",
+		"a /* unterminated", "/**/ /**/x", "a/*c*/\n(b)", "f(/* 1 */a, /* 2 */ b) /* 3 */"} {
+		checkTilingPlugins(c, f, 2)
 		c.count(f)
 	}
 	for a := 0; a < 256; a++ {
@@ -323,6 +381,12 @@ func oracleC10(c *oracleCtx) {
 			s = "\ufeff" + s
 		}
 		checkTiling(c, s, c.r.Intn(4))
+		if i%3 == 0 {
+			if c.r.Intn(2) == 0 {
+				s = strings.ReplaceAll(s, " ", []string{" /* c */ ", "/**/", " /* a\nb */"}[c.r.Intn(3)])
+			}
+			checkTilingPlugins(c, s, c.r.Intn(4))
+		}
 		c.count(s)
 	}
 }
